@@ -17,7 +17,8 @@ from .. import cards, cells, common
 SF_KINDS = ["F2", "FL", "F3", "g1", "gL", "g4"]
 XS_KINDS = ["XSHERANC", "XSHERANCAVG", "XSHERACC", "XSCHORUSCC", "XSNUTEVCC", "XSNUTEVNU", "FW", "F1", "g5", "XSFPFCC"]
 XVAL = {"in": None, "zero": 0.0, "negative": -0.1, "above1": 1.2, "belowgrid": 1e-4, "one": 1.0,
-        "justbelow": "first node times (1 - 5e-6)"}
+        "justbelow": "first node times (1 - 5e-6)",
+        "tiny": 1e-7}      # the first node of a grid reaching 1e-7, at a virtuality of 3e4 (the massive library at eta ~ 1e10)
 QVAL = {"pos": None, "zero": 0.0, "negative": -1.0}
 
 
@@ -28,6 +29,8 @@ def execute(ob):
     name = f"{ob['name']}_{pt['flav']}"
     line = dict(oid=ob["oid"], pt=ob["pt"], name=ob["name"], tmc=ob["tmc"], xc=ob["xc"], qc=ob["qc"], sv=ob.get("sv", "both"),
                 predicted=ob["predicted"], cls="OK", etype="", finite=True, msg="")
+    if ob["xc"] == "tiny":
+        pt["x_min"], pt["Q2"] = 1e-7, [30000, 1]
     th, o = cells.build(pt, [name])
     kins = o["observables"][name]
     if XVAL[ob["xc"]] is not None:
@@ -61,7 +64,7 @@ def execute(ob):
 def pick(ob, seed, tier):
     """Deterministic covering sample of the expensive orders (rotates with VERIF_SEED)."""
     pto = ob["pt"]["pto"]
-    if ob.get("sv", "both") != "both":
+    if ob.get("sv", "both") != "both" or ob["xc"] == "tiny":
         return True
     if tier == "quick" and ob["xc"] == "in" and ((ob["pt"]["proc"] == "CC") != (abs(ob["pt"]["proj"]) == 12)):
         return False  # quick: electrons for EM/NC, neutrinos for CC
@@ -103,6 +106,10 @@ def run(ctx):
     cfgs.append(common.cfg_text(dict(base, KINDS={"XSFPFCC", "XSCHORUSCC", "FW", "XSNUTEVCC"}, SCHEMES={"ZM4"}, ORDERS={"11"}, PROJS={"nu"},
                                      FLAVS={"total"}, PROCS={"CC"}, TMCS={0, 1}, XCS={"in", "zero", "negative", "above1", "belowgrid", "justbelow", "one"},
                                      QCS={"pos", "zero", "negative"}), spec=None))
+    # in-domain corner: the smallest x of a standard grid at a high virtuality, every kind, massive and massless
+    cfgs.append(common.cfg_text(dict(base, KINDS=set(SF_KINDS), SCHEMES={"ZM4", "FFNS3"} if q else {"ZM4", "FFNS3", "FFNS4", "FFN03", "FONLLS4"},
+                                     ORDERS={"22"} if q else {"11", "22"}, PROJS={"e-"} if q else {"e-", "nu"}, FLAVS={"light", "total"} if q else {"light", "total", "charm"},
+                                     PROCS={"NC"} if q else {"EM", "NC", "CC"}, TMCS={0}, XCS={"tiny"}), spec=None))
     # the scale-variation switches in every combination
     cfgs.append(common.cfg_text(dict(base, KINDS={"F2", "F3", "XSHERANC"} if q else {"F2", "FL", "F3", "g1", "XSHERANC", "XSCHORUSCC"},
                                      SCHEMES={"ZM4", "FFNS3"} if q else {"ZM4", "FFNS3", "FFN03", "FONLLS4"},
